@@ -121,7 +121,7 @@ def monitor(tr, which):
         if kind not in ASYNC_OPS and ok:
             n = res.get('npend', 0)
             for _ in range(n):
-                pend_kind[next_id] = {'execute': 'transfer', 'registerMetadata': 'meta'}.get(kind, 'issue' if kind in ('deployToken',) else 'remote')
+                pend_kind[next_id] = {'execute': 'transfer', 'registerMetadata': 'meta'}.get(kind, 'issue' if kind in ('deployToken', 'tm') else 'remote')
                 if kind == 'execute' and not delta:
                     pend_kind[next_id] = 'issue'          # inbound deploy step 2: value forwarded to the manager
                 held[next_id] = {t: d for t, d in delta.items() if d > 0} if pend_kind[next_id] != 'issue' else {}
